@@ -555,6 +555,52 @@ func c09Threshold(r *rand.Rand, i int, fx *c09fix) c09cmd {
 			return ""
 		}}
 	case 3, 4: // stateless reconstruction
+		if r.IntN(4) == 0 {
+			// large groups: every argument is well formed (48-byte G1 shares, distinct signers in range),
+			// so that the interpolation in the C layer runs with up to 254 shares
+			size := []int{129, 130, 200, 253, 254}[r.IntN(5)]
+			th := []int{127, 128, 129, size / 2, size - 2, size - 1, 1, 64}[r.IntN(8)]
+			if th >= size {
+				th = size - 1
+			}
+			ns := th + 1 + []int{0, 0, 1, 5}[r.IntN(4)]
+			if ns > size {
+				ns = size
+			}
+			perm := r.Perm(size)[:ns]
+			shares := make([]crypto.Signature, ns)
+			for j := range shares {
+				shares[j] = fx.thrShares[(j+perm[j])%4]
+			}
+			useStateful := r.IntN(3) == 0
+			desc := fmt.Sprintf("large: size=%d,threshold=%d,shares=%d,stateful=%v,signers=%v", size, th, ns, useStateful, trimInts(perm))
+			return c09cmd{"BLSReconstructThresholdSignature", desc, func() string {
+				if useStateful {
+					pks := make([]crypto.PublicKey, size)
+					for j := range pks {
+						pks[j] = fx.thrPks[j%4]
+					}
+					ins, err := crypto.NewBLSThresholdSignatureInspector(fx.thrGpk, pks, th, fx.msg, "thr")
+					if err != nil {
+						return bad("NewBLSThresholdSignatureInspector", desc, err.Error())
+					}
+					for j := range shares {
+						if _, e := ins.TrustedAdd(perm[j], shares[j]); !errIn(e, thrErr...) {
+							return bad("TrustedAdd", desc, e.Error())
+						}
+					}
+					if _, e := ins.ThresholdSignature(); !errIn(e, thrErr...) {
+						return bad("ThresholdSignature", desc, e.Error())
+					}
+					return ""
+				}
+				_, err := crypto.BLSReconstructThresholdSignature(size, th, shares, perm)
+				if !errIn(err, thrErr...) {
+					return bad("BLSReconstructThresholdSignature", desc, err.Error())
+				}
+				return ""
+			}}
+		}
 		size, th := intv(r, 4), intv(r, 3)
 		if r.IntN(3) != 0 {
 			size, th = 4, 1+r.IntN(3)
